@@ -21,10 +21,10 @@ import z3
 from symx import sreal as S
 from symx import npproxy
 from symx.gmath import EXPF
-from symx.lift import lift_matrix, exp_log_axioms, same_cell, CutStore, cut_array, prove_by_unfolding
+from symx.lift import lift_matrix, exp_log_axioms, same_cell, CutStore, cut_array, prove_by_unfolding, unfold, div_domain
 from symx.refeval import Equation
 from symx.series_tools import load_irispie
-from symx.concolic import model_values
+from symx.concolic import model_values, explore
 from symx.report import standard_main
 
 PID = "C17"
@@ -83,8 +83,8 @@ def _build(ir, template, T1, T2, nper, plan_spec, values=None):
     m.assign(a=pa, b=pb)
     start = ir.qq(2020, 1)
     span = start >> (start + nper - 1)
-    first = start - 3
-    ncol = nper + 3
+    first = start - 2          # = first column of the dataslate (max lag 2): databox index j == slate column j
+    ncol = nper + 2
     db = ir.Databox()
     def series(name, fill, miss=()):
         vals = []
@@ -111,7 +111,7 @@ def _build(ir, template, T1, T2, nper, plan_spec, values=None):
                 kw["when_data"] = True
             plan.exogenize(start + k, name, **kw)
             dname = name if ptrans in (None, "none") else f"{ptrans}_{name}"
-            col = 3 + k
+            col = 2 + k
             if dname not in db:
                 db[dname] = series(dname, 1.125, miss=() if have_data else (col,))
             elif not have_data:
@@ -120,7 +120,7 @@ def _build(ir, template, T1, T2, nper, plan_spec, values=None):
     return m, db, span, plan, eqs
 
 
-def _lifted_run(ir, ss, m, db, span, plan, order):
+def _lifted_run(ir, ss, m, db, span, plan, order, values=None):
     cap = {}
     real = ss._SIMULATION_METHOD_DISPATCH["sequential"]
 
@@ -128,7 +128,7 @@ def _lifted_run(ir, ss, m, db, span, plan, order):
         var = ds._variants[0]
         data = var.data
         names = tuple(ds.names)
-        obj, syms = lift_matrix(data, names, constant_rows=("a", "b"))
+        obj, syms = lift_matrix(data, names, constant_rows=("a", "b"), values=values)
         store = CutStore()
         var.data = cut_array(obj, store)
         cap.update(names=names, inp=obj.copy(), syms=syms, base_columns=tuple(ds.base_columns), periods=tuple(ds.periods), store=store)
@@ -186,10 +186,24 @@ def _obligations(cap, eqs, plan_spec, nper):
     return claims
 
 
-def _decide(run, key, cap, claims, case, finding):
+def _free_cells(plan_spec, base0):
+    """symbols of exogenized data points: unrestricted reals (so that an implied value of exactly 0 is reachable)"""
+    out = set()
+    for (name, k, ptrans, when_data, have_data) in (plan_spec or ()):
+        dname = name if ptrans in (None, "none") else f"{ptrans}_{name}"
+        out.add(f"{dname}__{base0 + k}")
+    return out
+
+
+def _domain(syms, plan_spec, base0=2):
+    free = _free_cells(plan_spec, base0)
+    return [s.t > 0 for n, s in syms.items() if n not in free]
+
+
+def _decide(run, key, cap, claims, case, finding, path=None, plan_spec=None):
     syms = cap["syms"]
     names = sorted(syms)
-    pos = [s.t > 0 for s in syms.values()]
+    pos = _domain(syms, plan_spec, cap["base_columns"][0]) + ([unfold(cap["store"], path.condition(), transitive=True)] if path is not None else [])
     eqs, n_sym = [], 0
     terms = []
     for label, impl, orc in claims:
@@ -216,7 +230,7 @@ def _decide(run, key, cap, claims, case, finding):
     bad, mdl_bad = [], None
     store = cap["store"]
     for i, (lab, e, ax) in enumerate(eqs):
-        r, mdl, steps = prove_by_unfolding(run, f"{key}:{lab}", e, store, pos, exp_log_axioms,
+        r, mdl, steps = prove_by_unfolding(run, f"{key}:{lab}", e, store, pos, lambda ts: exp_log_axioms(ts) + div_domain(ts),
                                            sample={"structure": case, "obligation": lab} if i == 0 else None)
         run.extra["unfolding_steps_max"] = max(run.extra.get("unfolding_steps_max", 0), steps)
         if steps > 1 and os.environ.get("C17_DEBUG"):
@@ -294,7 +308,8 @@ def main(run):
     run.bounds["values"] = "every input cell (variables, residuals, exogenized data, lags) an independent positive real; each parameter one positive real"
     run.assumptions += ["cells are mathematical reals; float rounding outside the claim",
                         "LOG/EXP uninterpreted with normalising constructors; EXP(.)>0 asserted for occurring applications",
-                        "all lifted inputs positive (so every log the model takes is defined)",
+                        "all lifted inputs positive (so every log the model takes is defined) except the exogenized data points, which are unrestricted reals",
+                        "every non-constant denominator occurring in a claim is non-zero (domain of the equation as written)", "where the kernel branches on data every feasible path is enumerated (DART) and decided under its path condition",
                         "cut points: each value written by the kernel is a fresh symbol with a recorded definition; a claim is first decided "
                         "with only the definitions of the symbols it mentions (earlier cells arbitrary: an inductive step), then exactly"]
     run.outside += ["models with more than 3 equations or lags > 2", "multiple variants", "user context functions in equations"]
@@ -306,13 +321,38 @@ def main(run):
                     case = dict(template=tpl, T1=T1, T2=T2, nper=nper, plan=plan_spec, order=order)
                     try:
                         m, db, span, plan, eqs = _build(ir, tpl, T1, T2, nper, plan_spec)
-                        cap = _lifted_run(ir, ss, m, db, span, plan, order)
-                        if "out" not in cap:
+                        with S.Path() as p0:
+                            cap0 = _lifted_run(ir, ss, m, db, span, plan, order)
+                        if "out" not in cap0:
                             run.unknown(key, "kernel entry was not reached")
                             continue
-                        claims = _obligations(cap, eqs, plan_spec, nper)
                         ptkey = "none" if plan_spec is None else "+".join(str(p[2]) for p in plan_spec)
-                        _decide(run, key, cap, claims, case, f"sequential:{T1}/{T2}:plan={ptkey}")
+                        finding = f"sequential:{T1}/{T2}:plan={ptkey}"
+                        if not p0.conds:
+                            # no branch on data: one path covers all values
+                            claims = _obligations(cap0, eqs, plan_spec, nper)
+                            _decide(run, key, cap0, claims, case, finding, plan_spec=plan_spec)
+                            run.paths += 1
+                        else:
+                            # the kernel branches on data: enumerate every feasible path (DART) and decide each one
+                            names = sorted(cap0["syms"])
+                            init = {n: (cap0["syms"][n].v if cap0["syms"][n].v is not None else Fraction(1)) for n in names}
+
+                            def runner(values):
+                                return _lifted_run(ir, ss, m, db, span, plan, order, values={k_: float(v) for k_, v in values.items()})
+                            results, exhausted = explore(names, runner, domain=_domain(cap0["syms"], plan_spec, cap0["base_columns"][0]), init=init, max_paths=32, stats=run.q,
+                                                         cond_of=lambda pth, cp: unfold(cp["store"], pth.condition(), transitive=True), axioms_fn=exp_log_axioms)
+                            run.paths += len(results)
+                            if not exhausted:
+                                run.unknown(key, f"path exploration not exhausted after {len(results)} paths")
+                                continue
+                            sub = f"{key}"
+                            before = dict(run.obligations)
+                            for pi, (path, cap, values) in enumerate(results):
+                                claims = _obligations(cap, eqs, plan_spec, nper)
+                                _decide(run, key, cap, claims, dict(case, path=pi), finding, path=path, plan_spec=plan_spec)
+                                if run.obligations.get(key) != "discharged":
+                                    break
                     except S.SymbolicBranchError as exc:
                         run.unknown(key, exc)
                     except Exception as exc:
@@ -331,8 +371,8 @@ def replay(case):
     with np.errstate(all="ignore"):
         out = m.simulate(db, span, plan=plan, execution_order=case["order"], when_simulates_nan="silent")
     start = span.start
-    first = start - 3
-    ncol = case["nper"] + 3
+    first = start - 2
+    ncol = case["nper"] + 2
     params = m.get_parameters() if hasattr(m, "get_parameters") else {}
 
     def getter(box):
@@ -345,7 +385,7 @@ def replay(case):
         return get
     gin, gout = getter(db), getter(out)
     names = [n for n in ("x", "y", "z", "w", "res_x", "res_z")]
-    cap = dict(names=tuple(names) + ("a", "b"), base_columns=tuple(range(3, ncol)))
+    cap = dict(names=tuple(names) + ("a", "b"), base_columns=tuple(range(2, ncol)))
     # float twin of _obligations
     exo = {}
     for (name, k, ptrans, when_data, have_data) in (plan_spec or ()):
